@@ -53,6 +53,9 @@ def run(ctx):
     run.rule("C20.R6", "file handler classes register a weak reference, "
              "remove exactly it on close, define reopen; closeFiles / "
              "reopenFiles act on the registry", floor=5)
+    run.rule("C20.R8", "each format style class: placeholder spellings, "
+             "usesTime and format == reference for that style (effective, "
+             "i.e. inherited, methods)", floor=12)
     run.rule("C20.R7", "log_format_style accepts exactly the keys of the "
              "style table the formatter factory indexes", floor=2)
 
@@ -204,6 +207,9 @@ def run(ctx):
         r = X.compare(P, fn, X.spec_function(m, ref, refname))
         _verdict(run, "C20.R6", fn, "registry operation", r, m)
 
+    # ------------------------------------------------------------------ R8
+    _style_classes(ctx)
+
     # ------------------------------------------------------------------ R7
     try:
         # keys of the style table (values are classes: fold keys only)
@@ -229,6 +235,79 @@ def run(ctx):
               "the style class is looked up in the same table with the "
               "validated style", "style lookup is %s" % uses,
               loc=m.loc(ff, ff.node))
+
+
+# --------------------------------------------------------------------- R8
+
+STYLE_CLASSES = {
+    # class: (logging_style, default_format, asctime_format, asctime_search,
+    #         {method: reference})
+    "PercentStyle": ("%", "%(message)s", "%(asctime)s", "%(asctime)",
+                     {"__init__": "style_init", "usesTime": "percent_usesTime",
+                      "format": "percent_format"}),
+    "StrFormatStyle": ("{", "{message}", "{asctime}", "{asctime",
+                       {"__init__": "style_init",
+                        "usesTime": "percent_usesTime",
+                        "format": "strformat_format"}),
+    "StringTemplateStyle": ("$", "${message}", "${asctime}", "${asctime}",
+                            {"__init__": "template_init",
+                             "usesTime": "template_usesTime",
+                             "format": "template_format"}),
+    "SafeStringTemplateStyle": (None, "${message}", "${asctime}",
+                                "${asctime}",
+                                {"__init__": "template_init",
+                                 "usesTime": "template_usesTime",
+                                 "format": "safetemplate_format"}),
+}
+
+
+def _style_classes(ctx):
+    """The method each style class effectively has (its own or inherited) ==
+    the reference for that style, and its class constants == the documented
+    placeholder spellings."""
+    run, m, P = ctx.run, ctx.model, ctx.program
+    FM = LG + ".formatter"
+    for cname, (ls, df, af, asr, methods) in sorted(STYLE_CLASSES.items()):
+        cq = FM + "." + cname
+        if cq not in m.classes:
+            raise AnalysisError("anchor vanished: class " + cq)
+        got = {}
+        for attr in ("logging_style", "default_format", "asctime_format",
+                     "asctime_search"):
+            try:
+                got[attr] = m.fold_class_attr(cq, attr)
+            except Exception as e:
+                got[attr] = "<unfoldable: %s>" % e
+        want = {"logging_style": ls, "default_format": df,
+                "asctime_format": af, "asctime_search": asr}
+        run.check(got == want, "C20.R8", cq, "placeholder spellings",
+                  "class constants are %s" % want,
+                  "class constants %s differ from the documented %s"
+                  % ({k: v for k, v in got.items() if want[k] != v},
+                     {k: v for k, v in want.items() if got[k] != v}),
+                  loc=m.loc(m.cls(cq).module, m.cls(cq).node),
+                  nontrivial=False)
+        for meth, refname in sorted(methods.items()):
+            fn = m.lookup_method(cq, meth)
+            if fn is None:
+                run.fail("C20.R8", cq, meth, "style class %s has no %s"
+                         % (cname, meth))
+                continue
+            rf = X.spec_method(P, "ref_logger.py", refname, cq)
+            r = X.compare(P, fn, rf, live_kw={"try_raises": False},
+                          ref_kw={"try_raises": False},
+                          rename=lambda s: s.replace(
+                              "_StrFormatStyle__formatter", "__formatter"))
+            if r["verdict"] == "violation" and not r.get("vanished"):
+                run.fail("C20.R8", cq, meth + " (defined in %s)"
+                         % fn.qualname.rsplit(".", 2)[-2],
+                         "the %s that %s effectively has (%s) differs from "
+                         "the reference for this style: live %s, reference %s"
+                         % (meth, cname, fn.qualname, r["witness"]["live"],
+                            r["witness"]["reference"]),
+                         loc=m.loc(fn, fn.node), witness=r["witness"])
+            else:
+                _verdict(run, "C20.R8", fn, "%s.%s" % (cname, meth), r, m)
 
 
 # --------------------------------------------------------------------- R2
